@@ -46,15 +46,15 @@ G = 9.80665
 
 def cases(tier, seed):
     out = []
-    n = 48 if tier == 'quick' else 480
+    n = 48 if tier == 'quick' else 1500
     for i in range(n):
         out.append({'name': 'steps-%d' % i, 'kind': 'steps',
                     'seed': [seed, 141, i]})
-    n = 12 if tier == 'quick' else 100
+    n = 12 if tier == 'quick' else 300
     for i in range(n):
         out.append({'name': 'core-%d' % i, 'kind': 'core',
                     'seed': [seed, 142, i]})
-    n = 10 if tier == 'quick' else 80
+    n = 10 if tier == 'quick' else 300
     for i in range(n):
         out.append({'name': 'tdep-%d' % i, 'kind': 'tdep',
                     'seed': [seed, 143, i]})
